@@ -876,13 +876,11 @@ pub fn s_overlap() -> WCfg {
     let t = &c.invoices[0].hash_hex[..4].to_string();
     c.prefix = vec![
         "Deliver(a)".to_string(),
-        format!("Answer(listdatastore@{}#1)", t),
-        format!("Answer(datastore[state]@{}#1)", t),
-        format!("Answer(datastore[attempts]@{}#1)", t),
+        "@default-until-pay".to_string(),
         format!("PaySpawnPart(cmd@{}#1)", t),
         format!("Part(g1.p1@{},Fail204)", t),
         format!("PayEnd(cmd@{}#1,failed)", t),
-        format!("Stall(datastore[attempts]@{}#2)", t),
+        "@stall-oldest".to_string(),
         "Deliver(a')".to_string(),
     ];
     c.max_stalls = 3;
